@@ -145,8 +145,6 @@ pub fn leak_monitor(r: &RunResult<Vec<bool>>, advice: Option<&RunResult<Vec<bool
 /// under the labels the evaluator holds (re-derived from the 'labels' messages, the free-gate rules
 /// and the evaluator-label probe).  Returns the number of (gate, garbler) pairs checked.
 pub fn label_census(case: &MpcCase, r: &RunResult<Vec<bool>>) -> Result<u32, String> {
-    use chacha20poly1305::aead::{Aead, KeyInit};
-    use chacha20poly1305::{ChaCha20Poly1305, Key, Nonce};
     use crate::circuits::G;
     let n = case.n();
     let e = case.p_eval;
@@ -177,17 +175,12 @@ pub fn label_census(case: &MpcCase, r: &RunResult<Vec<bool>>) -> Result<u32, Str
                 G::Not(a) => held[a as usize],
                 G::And(a, b) => {
                     let (lx, ly) = (held[a as usize].ok_or("label missing")?, held[b as usize].ok_or("label missing")?);
-                    let mut key = [0u8; 32];
-                    key[..16].copy_from_slice(&lx.to_be_bytes());
-                    key[16..].copy_from_slice(&ly.to_be_bytes());
-                    let cipher = ChaCha20Poly1305::new(Key::from_slice(&key));
                     let rows = gates.get(and_idx).ok_or("garbled gate missing")?;
                     let mut opens = 0;
                     for (row, ct) in rows.iter().enumerate() {
-                        let mut nonce = [0u8; 12];
-                        nonce[..8].copy_from_slice(&(w as u64).to_be_bytes());
-                        nonce[8] = row as u8;
-                        if cipher.decrypt(Nonce::from_slice(&nonce), ct.as_ref()).is_ok() {
+                        // the engine's own row decryption (so that the census does not depend on how the
+                        // row key is derived from the two labels)
+                        if polytune::verif::open_garbled_row(lx, ly, w, row as u8, ct).is_some() {
                             opens += 1;
                         }
                     }
